@@ -144,7 +144,7 @@ def arbitrary(rnd, spec):
                     t["params"] = sorted(t["params"], reverse=t["cls"] == "Rectangle" and t["params"][0] > t["params"][1])
             if t.get("height", 1.0) != 1.0:
                 t["height"] = min(0.99, max(0.01, t["height"] + rnd.uniform(-1e-3, 1e-3)))
-        v["description"] = rnd.choice(["", "it's \"quoted\"", "back\\slash", "a 'single' quote", "tab\tand unicode é", "a long description that goes well beyond the thirty characters reprlib keeps by default, " * 2])
+        v["description"] = rnd.choice(["", "it's \"quoted\"", "back\\slash", "a 'single' quote", "tab\tand unicode é", "two lines\r\nof text", "old\rline ends\nmixed", "a long description that goes well beyond the thirty characters reprlib keeps by default, " * 2])
     for o in s["outputs"]:
         if not math.isnan(o["default_value"]):
             o["default_value"] = o["default_value"] + rnd.uniform(-1e-5, 1e-5) if rnd.random() < 0.8 else -0.0
@@ -200,6 +200,15 @@ def run(ctx):
                 if rnd.random() < 0.4:
                     spec = E.exotic(rnd, spec, empty_engine_name=False)  # the encapsulating class is named after the engine
                     ctx.hit("workload:exotic configuration")
+                if rnd.random() < 0.08:  # a table of several hundred pairs whose values need all their digits
+                    v = rnd.choice(spec["inputs"])
+                    npairs = rnd.choice([501, 520, 700])
+                    xs_ = np.linspace(-1.0, 2.0, npairs)
+                    params = []
+                    for x_ in xs_:
+                        params += [float(x_), float(np.exp(-((x_ - 0.4) ** 2) / 3.0))]
+                    v["terms"].append(dict(cls="Discrete", name=f"table{v['name']}", params=params, height=1.0))
+                    ctx.hit("workload:Discrete term with more than 500 pairs")
                 if rnd.random() < 0.3:  # long lists (more than reprlib's default of six items)
                     v = rnd.choice(spec["inputs"])
                     lo_, hi_ = (v["minimum"] if math.isfinite(v["minimum"]) else -5.0), (v["maximum"] if math.isfinite(v["maximum"]) else 5.0)
@@ -209,12 +218,26 @@ def run(ctx):
                         o["default_value"] = rnd.choice([0.0, -0.0])
                 # "every engine": also those that were not put together with constructors
                 spec["route"] = rnd.choice(["constructors", "constructors", "factories", "fll", "configure", "rule-create-with-engine"])
+                if spec["route"] == "fll" and any("\n" in x["description"] or "\r" in x["description"] for x in spec["inputs"] + spec["outputs"] + spec["blocks"] + [spec]):
+                    spec["route"] = "constructors"  # the FuzzyLite Language has no way to write a line break inside a description
                 try:
                     engine = E.build(fl, spec)
                 except Exception as ex:
                     ctx.hit(f"inconclusive:generated engine does not build: {type(ex).__name__}: {str(ex)[:60]}")
                     continue
                 ctx.hit("route:" + spec["route"])
+                if rnd.random() < 0.3:
+                    # the engine is written out once, then a rule is re-weighted, then it is written out again (judged below)
+                    repr(engine)
+                    str(engine)
+                    for rb, rbs in zip(engine.rule_blocks, spec["blocks"]):
+                        for r, rs in zip(rb.rules, rbs["rules"]):
+                            if rnd.random() < 0.5:
+                                w = rnd.choice([0.5, 0.2, 0.7, 1.0]) if d == 1 else rnd.choice([0.5, 0.25, 0.75, 1.0])  # on the d-decimals grid
+                                r.weight = w
+                                rs["weight"] = w
+                                rs["text"] = rs["text"].split(" with ")[0] + E.weight_text(w, d)
+                    ctx.hit("workload:rule weights assigned after the engine was written out")
                 spec["assign_defaults"] = rnd.random() < 0.5
                 if spec["assign_defaults"]:
                     assign_defaults(engine, spec)
@@ -267,7 +290,7 @@ def run(ctx):
                     pass
         probe.report(ctx)
         reach.report(ctx)
-    ctx.require("workload:a rule was given a text that the parser rejected", "component:term built by factory and configure", "compare:dedicated method input_variable", "compare:dedicated method rule_block", "compare:dedicated method term", "compare:dedicated method norm")
+    ctx.require("workload:a rule was given a text that the parser rejected", "workload:rule weights assigned after the engine was written out", "workload:Discrete term with more than 500 pairs", "component:term built by factory and configure", "compare:dedicated method input_variable", "compare:dedicated method rule_block", "compare:dedicated method term", "compare:dedicated method norm")
     ctx.require("hook:PythonExporter.to_string", "compare:identical outputs", "kind:Engine", "kind:Term", "kind:InputVariable", "kind:OutputVariable", "kind:RuleBlock", "kind:Rule", "kind:Norm", "kind:Defuzzifier", "kind:Activation")
     for alias in ALIASES:
         for enc in ("plain", "encapsulated"):
